@@ -792,6 +792,30 @@ def _repr_exact(ctx, m):
                 import re as _re
                 if _re.search(r'%[0-9.]*[fegdi]', node.value) or _re.search(r'\{[^}]*:[^}]*[fegd]\}', node.value):
                     bad = node
+        # the arguments shown are the constructor's parameters, in the constructor's order
+        init = meths.get('__init__')
+        order_bad = None
+        if init is not None:
+            params = [a.arg for a in init.args.args[1:]]
+            shown = []
+            for node in ast.walk(fn):
+                if isinstance(node, ast.BinOp) and isinstance(node.op, ast.Mod) and isinstance(node.right, ast.Tuple):
+                    for el in node.right.elts:
+                        attrs = [x.attr for x in ast.walk(el) if isinstance(x, ast.Attribute) and isinstance(x.value, ast.Name)
+                                 and x.value.id == 'self']
+                        if attrs and attrs[0] not in ('__class__',):
+                            shown.append(attrs[0])
+            alias = {'data_to_string': 'data'}
+            shown = [alias.get(a, a) for a in shown]
+            if shown and shown != params[:len(shown)]:
+                order_bad = (shown, params)
+        if order_bad is not None and bad is None:
+            ctx.violation('C11.D5', '%s::%s.__repr__' % (FD_, cname), norm(fn.body[-1])[:120],
+                          'a %s literal in a filter is compiled as repr(value), which shows the fields %s where the constructor '
+                          'takes %s: the generated code builds another value than the literal' % (cname, order_bad[0], order_bad[1]),
+                          '%s.__repr__ does not show the constructor arguments in the constructor\'s order' % cname, file=FD_,
+                          line=fn.lineno, engine='E10')
+            continue
         if bad is not None:
             ctx.violation('C11.D5', '%s::%s.__repr__' % (FD_, cname), norm(bad)[:120],
                           'filter `geoCoord == C(37.5458266,-77.4491888)` on a row holding exactly that coordinate: the literal is '
